@@ -145,7 +145,14 @@ def run(E: Engine, rep: Report, tier: str) -> dict:
     ini = E.method(PO, "__init__")
     Si = S(E, ini)
     ups = [l for l in Si.log if l.fn == ini.short and l.kind == "call" and l.target == sym.Pattern("self._variables.update").term]
-    ok = any(l.loops and is_(l.loops[-1], "chain(args, kwargs.values())") is not None and is_(arg(l, 0), "Q_x.variables") is not None and elem_of(is_(arg(l, 0), "Q_x.variables")["Q_x"], l.loops[-1]) for l in ups)
+    covered: set = set()
+    for l in ups:
+        m_ = is_(arg(l, 0), "Q_x.variables") if l.loops else None
+        if m_ is None or not elem_of(m_["Q_x"], l.loops[-1]):
+            continue
+        it_ = unobj(l.loops[-1])
+        covered |= set(it_[2]) if it_[0] == "call" and it_[1] in (("name", "chain"), ("attr", ("name", "itertools"), "chain")) else {it_}
+    ok = {("name", "args"), sym.Pattern("kwargs.values()").term} <= covered
     rep.check(ok, "FLOW", "ParamObj.__init__|collects-variables-of-args-and-kwargs", "variables of args and kwargs are collected", "ParamObj no longer collects the variables of both args and kwargs", E.where(ini))
     rep.floor("FLOW", 10)
 
